@@ -58,6 +58,12 @@ impl CounterMarker {
         }
     }
 
+    #[cfg(feature = "verif-hooks")]
+    #[inline]
+    pub(crate) fn raw(&self) -> (u16, u16) {
+        (self.tracing_counter.get(), self.counter.get())
+    }
+
     #[inline]
     pub(crate) fn increment_counter(&self) -> Result<(), OverflowError> {
         debug_assert!(self.counter() != COUNTER_MASK); // Check for reserved value
